@@ -23,6 +23,7 @@ def judgeAll (env : Env) (libs : List (String × Bytes)) (tr : List (Op × Obs))
     ("C02", mon02.run env mon02.init 0 View.empty vt),
     ("C03", mon03.run env mon03.init 0 View.empty vt),
     ("C05", (mon05 libs).run env (mon05 libs).init 0 View.empty vt),
+    ("C06", mon06.run env mon06.init 0 View.empty vt),
     ("C08", mon08.run env mon08.init 0 View.empty vt),
     ("C09", mon09.run env mon09.init 0 View.empty vt),
     ("C10", mon10.run env mon10.init 0 View.empty vt),
